@@ -3,8 +3,78 @@
 //! (the real one is an intrusive lock-free list woken through per-task wakers: pointer-rich and dependent on wake-ups
 //! the sequential environment does not model). Completion order among several ready futures is therefore "lowest index
 //! first"; harnesses that care about order permute the insertion order.
-pub use futures_util::{future, sink, task};
+pub use futures_util::{sink, task};
 pub use futures_util::{FutureExt, SinkExt, StreamExt, TryFutureExt, TryStreamExt};
+/// `future::try_join_all` is replaced as well: the real one (futures-util 0.3.34) runs on FuturesOrdered, i.e. on the real
+/// intrusive FuturesUnordered. Contract kept: polls every unfinished future on each poll, in index order; completes with
+/// Err at the first error seen, with the vector of all outputs (input order) once every future has completed Ok.
+pub mod future {
+    pub use futures_util::future::*;
+    use std::future::Future;
+    use std::pin::Pin;
+    use std::task::{Context, Poll};
+    pub struct TryJoinAll<F, T> {
+        futs: Vec<Option<Pin<Box<F>>>>,
+        outs: Vec<Option<T>>,
+    }
+    impl<F, T> Unpin for TryJoinAll<F, T> {}
+    pub fn try_join_all<I, F, T, E>(iter: I) -> TryJoinAll<F, T>
+    where
+        I: IntoIterator<Item = F>,
+        F: Future<Output = Result<T, E>>,
+    {
+        let mut futs = Vec::new();
+        let mut outs = Vec::new();
+        for f in iter {
+            futs.push(Some(Box::pin(f)));
+            outs.push(None);
+        }
+        TryJoinAll { futs, outs }
+    }
+    impl<F, T, E> Future for TryJoinAll<F, T>
+    where
+        F: Future<Output = Result<T, E>>,
+    {
+        type Output = Result<Vec<T>, E>;
+        fn poll(mut self: Pin<&mut Self>, cx: &mut Context<'_>) -> Poll<Self::Output> {
+            let me = &mut *self;
+            let mut all = true;
+            let mut i = 0;
+            while i < me.futs.len() {
+                let done = match me.futs[i].as_mut() {
+                    Some(f) => match f.as_mut().poll(cx) {
+                        Poll::Ready(Ok(v)) => {
+                            me.outs[i] = Some(v);
+                            true
+                        }
+                        Poll::Ready(Err(e)) => return Poll::Ready(Err(e)),
+                        Poll::Pending => {
+                            all = false;
+                            false
+                        }
+                    },
+                    None => false,
+                };
+                if done {
+                    me.futs[i] = None;
+                }
+                i += 1;
+            }
+            if !all {
+                return Poll::Pending;
+            }
+            let mut out = Vec::new();
+            let mut i = 0;
+            while i < me.outs.len() {
+                if let Some(v) = me.outs[i].take() {
+                    out.push(v);
+                }
+                i += 1;
+            }
+            Poll::Ready(Ok(out))
+        }
+    }
+}
 pub mod stream {
     pub use futures_util::stream::*;
     pub mod futures_unordered {
